@@ -131,3 +131,148 @@ Qed.
 Example c07_nonvacuous_fresh :
   new_id (run ex_state [OTouch]) OEph = None /\ new_id (run ex_state [OAbort; OBegin]) OPers = Some 5.
 Proof. split; vm_compute; reflexivity. Qed.
+
+(* ======================================================================================================
+   Allocation records: WHAT a savepoint restore frees (coq/Txn/AllocRec.v on top of the page-ownership model
+   coq/Txn/Own.v; qualified names, the savepoint model above keeps its own `st`, `op`, `step`).
+   `AllocRec.step2` is a product step over Own.v's operation language whose first component is `Own.step`;
+   its second component mirrors DATA_ALLOCATED_TABLE, unpersisted.allocations, the PageTracker (+ tracking flag),
+   `dirty`, valid_savepoints and the per-transaction invalidation set, function by function.
+   `AllocRec.Inv2 x` = Own.Inv (fst x) /\ RInv x; RInv contains O5: for every valid savepoint at t, the records
+   with key > t (+ the tracker) name exactly the data-lineage pages that are not part of the savepoint's version.
+   The extracted step2 / rinv_checkb are compared with / evaluated on the real crate after every API call
+   (harness `c07 rec`, ocaml/c07r_driver.ml). *)
+From RV Require Txn.PSet Txn.Own Txn.OwnThmP Txn.AllocRec Txn.AllocRecBaseP Txn.AllocRecP Txn.AllocRecDrainP.
+
+(* the product machine refines the ownership machine: its first component IS Own.step *)
+Theorem c07_step2_refines_own : forall x o, fst (AllocRec.step2 x o) = Own.step (fst x) o.
+Proof. exact AllocRecP.step2_fst. Qed.
+
+Theorem c07_run2_refines_own : forall h x, fst (AllocRec.run2 h x) = Own.run h (fst x).
+Proof. exact AllocRecP.run2_fst. Qed.
+
+(* rec_inv: the record invariant holds initially and is preserved by every admissible step, hence in every
+   history (induction on its length) *)
+Theorem c07_rec_inv_init : AllocRec.Inv2 (Own.init, AllocRec.rinit).
+Proof. exact AllocRecP.rinv_init. Qed.
+
+Theorem c07_rec_inv_step : forall x o, AllocRec.Inv2 x -> AllocRec.oracle_ok2 x o = true ->
+  AllocRec.Inv2 (AllocRec.step2 x o).
+Proof. exact AllocRecP.rinv_step. Qed.
+
+Theorem c07_rec_inv : forall h x, AllocRec.Inv2 x -> AllocRec.admissible2 x h -> AllocRec.Inv2 (AllocRec.run2 h x).
+Proof. exact AllocRecP.rec_inv. Qed.
+
+Theorem c07_rec_inv_reach : forall h, AllocRec.admissible2 (Own.init, AllocRec.rinit) h ->
+  AllocRec.Inv2 (AllocRec.run2 h (Own.init, AllocRec.rinit)).
+Proof. exact AllocRecP.rec_inv_init. Qed.
+
+(* restore_frees_exactly: what the code's mechanism computes on a restore -- the tracker's pages freed at once,
+   DATA_ALLOCATED[> t] ++ unpersisted_allocations_after(t) queued -- is, as a state, what Own.restore specifies
+   (equal up to the order inside the allocator set, the uncommitted set and the queue) ... *)
+Theorem c07_restore_frees_exactly : forall x h, AllocRec.Inv2 x -> AllocRec.oracle_ok2 x (Own.ORestore h) = true ->
+  AllocRec.st_eqv (AllocRec.restore_rec h (fst x) (snd x)) (Own.restore h (fst x)).
+Proof. exact AllocRecP.restore_frees_exactly. Qed.
+
+(* ... the two sets spelled out: with X = everything the data lineage owns after the savepoint (Own.cover_w),
+   X /\ uncommitted = the tracker's pages, and (X \ uncommitted) \ pages(savepoint) = the records after it *)
+Theorem c07_restore_sets_exact : forall x h sp, AllocRec.Inv2 x -> AllocRec.oracle_ok2 x (Own.ORestore h) = true ->
+  Own.find_pin h (Own.pins (fst x)) = Some sp ->
+  let X := Own.cover_w (Own.ptxn sp) (fst x) in
+  PSet.seteq (PSet.inter X (Own.wasc (fst x))) (AllocRec.trk (snd x)) /\
+  PSet.seteq (PSet.minus (PSet.minus X (Own.wasc (fst x))) (Own.ppages sp)) (AllocRec.RC (Own.ptxn sp) (snd x)).
+Proof. exact AllocRecP.restore_sets_exact. Qed.
+
+(* tracking_disabled_safe: the PageTracker is off only when no savepoint exists; the transaction is then dirty,
+   so no savepoint can be created in it and there is none to restore *)
+Theorem c07_tracking_disabled_safe : forall x, AllocRec.Inv2 x -> AllocRec.trk_on (snd x) = false ->
+  AllocRec.valid (snd x) = [] /\ AllocRec.trk (snd x) = [] /\ AllocRec.dirty (snd x) = true /\
+  (forall h p, AllocRec.oracle_ok2 x (Own.OSpCreate h p) = false) /\
+  (forall h, AllocRec.oracle_ok2 x (Own.ORestore h) = false).
+Proof. exact AllocRecP.tracking_disabled_safe. Qed.
+
+Theorem c07_restore_tracker_complete : forall x h, AllocRec.Inv2 x ->
+  AllocRec.oracle_ok2 x (Own.ORestore h) = true -> AllocRec.trk_on (snd x) = true.
+Proof. exact AllocRecP.restore_tracker_complete. Qed.
+
+(* savepoint_no_leak: once no reader and no savepoint is left, three durable commits that change no data
+   (quick-repair off, post-commit free on; Sd_i / So_i = the system tree after the commit / after its epilogue)
+   leave allocated = pages(data tree) ++ pages(system tree), every pending-free table and both record tables
+   empty.  (The first commit's epilogue drains DATA_FREED under a non-durable id that holds its durable ancestor
+   through the second commit; the third drains SYSTEM_FREED.) *)
+Theorem c07_savepoint_no_leak : forall Sd1 So1 Sd2 So2 Sd3 So3 x, AllocRec.Inv2 x ->
+  Own.inw (fst x) = false -> Own.pins (fst x) = [] ->
+  let sched := AllocRec.no_leak_schedule (Own.vdata (Own.lat (fst x))) Sd1 So1 Sd2 So2 Sd3 So3 in
+  AllocRec.admissible2 x sched ->
+  let x' := AllocRec.run2 sched x in
+  NoDup (Own.alloc (fst x')) /\
+  (forall p, In p (Own.alloc (fst x')) <-> In p (Own.vdata (Own.lat (fst x')) ++ Own.vsys (Own.lat (fst x')))) /\
+  PSet.flat (Own.dfreed (fst x')) = [] /\ Own.sfreed (fst x') = [] /\ Own.ufreed (fst x') = [] /\
+  Own.unpers (fst x') = [] /\ Own.pend (fst x') = [] /\
+  Own.vdata (Own.lat (fst x')) = Own.vdata (Own.lat (fst x)) /\
+  AllocRec.dalloc (snd x') = [] /\ AllocRec.ualloc (snd x') = [] /\ AllocRec.valid (snd x') = [].
+Proof. exact AllocRecDrainP.savepoint_no_leak. Qed.
+
+(* the boolean checker evaluated on every observed (ownership state, records) of the implementation is sound *)
+Theorem c07_rinv_check_sound : forall x, AllocRec.rinv_checkb x = true -> AllocRec.RObs (fst x) (snd x).
+Proof. exact AllocRecBaseP.rinv_check_sound. Qed.
+
+(* ---- non-vacuity: a history with a durable and a non-durable commit, two ephemeral savepoints, a dirty
+   transaction with tracked pages; both savepoints are restorable *)
+Definition c07_rec_history : list Own.op :=
+  [ Own.OBeginWrite; Own.OMutData [1;2]%positive; Own.OCommitDur [1;2]%positive [10]%positive [] false true;
+    Own.OBeginWrite; Own.OSpCreate 100 false; Own.OMutData [1;3]%positive; Own.OCommitNd [1;3]%positive [10]%positive;
+    Own.OBeginWrite; Own.OSpCreate 101 false; Own.OMutData [1;4]%positive ].
+Definition c07_rec_state : Own.st * AllocRec.arec := AllocRec.run2 c07_rec_history (Own.init, AllocRec.rinit).
+
+Example c07_rec_nonvacuous :
+  AllocRec.admissible2 (Own.init, AllocRec.rinit) c07_rec_history /\
+  AllocRec.rinv_checkb c07_rec_state = true /\ Own.own_checkb (fst c07_rec_state) = true /\
+  AllocRec.valid (snd c07_rec_state) = [(100, 2); (101, 3)] /\
+  AllocRec.ualloc (snd c07_rec_state) = [(3, [3]%positive)] /\ AllocRec.trk (snd c07_rec_state) = [4%positive] /\
+  Own.ufreed (fst c07_rec_state) = [(3, [2]%positive)] /\ Own.wdfr (fst c07_rec_state) = [3%positive] /\
+  AllocRec.oracle_ok2 c07_rec_state (Own.ORestore 101) = true /\
+  AllocRec.oracle_ok2 c07_rec_state (Own.ORestore 100) = true /\
+  Own.wdfr (AllocRec.restore_rec 100 (fst c07_rec_state) (snd c07_rec_state)) = [3%positive] /\
+  Own.alloc (AllocRec.restore_rec 100 (fst c07_rec_state) (snd c07_rec_state)) = [3; 10; 1; 2]%positive.
+Proof. vm_compute. repeat split; reflexivity. Qed.
+
+(* the off-by-one variant (`allocations_after` / the DATA_ALLOCATED range taken from t instead of t+1) is refuted:
+   restoring savepoint 101 (transaction 3, pages {1,3}) it queues page 3 -- a page of the restored root -- for
+   freeing, and its result is not the state Own.restore specifies *)
+Example c07_restore_range_off_by_one_refuted :
+  Own.find_pin 101 (Own.pins (fst c07_rec_state)) = Some (Own.mkpin 101 3 [1;3]%positive false) /\
+  In 3%positive (Own.wdfr (AllocRec.restore_rec_ge 101 (fst c07_rec_state) (snd c07_rec_state))) /\
+  Own.wdata (AllocRec.restore_rec_ge 101 (fst c07_rec_state) (snd c07_rec_state)) = [1;3]%positive /\
+  ~ AllocRec.st_eqv (AllocRec.restore_rec_ge 101 (fst c07_rec_state) (snd c07_rec_state)) (Own.restore 101 (fst c07_rec_state)) /\
+  AllocRec.st_eqv (AllocRec.restore_rec 101 (fst c07_rec_state) (snd c07_rec_state)) (Own.restore 101 (fst c07_rec_state)).
+Proof.
+  split; [vm_compute; reflexivity|]. split; [vm_compute; auto|]. split; [vm_compute; reflexivity|]. split.
+  - intros (_ & _ & Hq & _). destruct (Hq 3%positive) as [H1 _]. vm_compute in H1. apply H1. auto.
+  - apply c07_restore_frees_exactly; [|vm_compute; reflexivity].
+    apply c07_rec_inv_reach. vm_compute. repeat split; reflexivity.
+Qed.
+
+(* the same with DATA_ALLOCATED_TABLE (the commit of transaction 3 is durable) *)
+Definition c07_rec_history_d : list Own.op :=
+  [ Own.OBeginWrite; Own.OMutData [1;2]%positive; Own.OCommitDur [1;2]%positive [10]%positive [] false true;
+    Own.OBeginWrite; Own.OSpCreate 100 false; Own.OMutData [1;3]%positive; Own.OCommitDur [1;3]%positive [10]%positive [11]%positive false true;
+    Own.OBeginWrite; Own.OSpCreate 101 false; Own.OMutData [1;4]%positive ].
+Definition c07_rec_state_d : Own.st * AllocRec.arec := AllocRec.run2 c07_rec_history_d (Own.init, AllocRec.rinit).
+
+Example c07_restore_range_off_by_one_refuted_table :
+  AllocRec.admissible2 (Own.init, AllocRec.rinit) c07_rec_history_d /\
+  AllocRec.dalloc (snd c07_rec_state_d) = [(3, [3]%positive)] /\
+  In 3%positive (Own.wdfr (AllocRec.restore_rec_ge 101 (fst c07_rec_state_d) (snd c07_rec_state_d))) /\
+  Own.wdfr (AllocRec.restore_rec 101 (fst c07_rec_state_d) (snd c07_rec_state_d)) = [].
+Proof. vm_compute. repeat split; try reflexivity. auto. Qed.
+
+(* the hypotheses of c07_savepoint_no_leak are satisfiable on a state with pending records: after aborting the
+   transaction and dropping both savepoints the schedule is admissible, and it starts with non-empty tables *)
+Example c07_no_leak_nonvacuous :
+  let x := AllocRec.run2 (c07_rec_history ++ [Own.OAbort; Own.ODropPin 100; Own.ODropPin 101]) (Own.init, AllocRec.rinit) in
+  AllocRec.admissible2 (Own.init, AllocRec.rinit) (c07_rec_history ++ [Own.OAbort; Own.ODropPin 100; Own.ODropPin 101]) /\
+  Own.inw (fst x) = false /\ Own.pins (fst x) = [] /\
+  Own.ufreed (fst x) = [(3, [2]%positive)] /\ AllocRec.ualloc (snd x) = [(3, [3]%positive)] /\
+  AllocRec.admissible2 x (AllocRec.no_leak_schedule (Own.vdata (Own.lat (fst x))) [10]%positive [12]%positive [12]%positive [] [12]%positive []).
+Proof. vm_compute. repeat split; reflexivity. Qed.
